@@ -456,3 +456,43 @@ func (e *Engine) lookupGlobal(pkg *types.Package, qual, name string) *globalInfo
 	}
 	return nil
 }
+
+// deterministicByName finds a contract flagged `deterministic` by function name, looking in pkg first.
+func (e *Engine) deterministicByName(pkg *types.Package, name string) *Contract {
+	if pkg != nil {
+		if c, ok := e.contracts.Funcs[pkg.Path()+"."+name]; ok && c.Deterministic {
+			return c
+		}
+	}
+	var found *Contract
+	for k, c := range e.contracts.Funcs {
+		if c.Deterministic && strings.HasSuffix(k, "."+name) {
+			if found != nil {
+				return nil
+			}
+			found = c
+		}
+	}
+	return found
+}
+
+// contractFunc finds the SSA function a contract is about (in-repo or external).
+func (e *Engine) contractFunc(c *Contract) *ssa.Function {
+	if !c.Extern {
+		return e.lookupFunc(c.Pkg, c.Key)
+	}
+	i := strings.LastIndex(c.Key, ".")
+	if i < 0 || strings.HasPrefix(c.Key, "(") {
+		return nil
+	}
+	pp, name := c.Key[:i], c.Key[i+1:]
+	if p, ok := e.spkgs[pp]; ok {
+		return p.Func(name)
+	}
+	for path, p := range e.spkgs {
+		if strings.HasSuffix(path, "/"+pp) {
+			return p.Func(name)
+		}
+	}
+	return nil
+}
